@@ -210,9 +210,9 @@ def run(tier, seed):
         grid = [(2, 3, (1, 2, 3), 1, 12), (2, 4, (1, 2, 3), 1, 12), (3, 3, (1, 2), 1, 10)]
         budget = 120
     else:
-        grid = [(2, 3, (1, 2, 3), 2, 14), (2, 4, (1, 2, 3), 2, 14), (3, 3, (1, 2, 3), 2, 12),
-                (3, 4, (1, 2, 3), 1, 12)]
-        budget = 1500
+        grid = [(2, 3, (1, 2, 3), 2, 14), (2, 4, (1, 2, 3), 2, 13), (3, 3, (1, 2, 3), 2, 11),
+                (3, 4, (1, 2, 3), 1, 11)]
+        budget = 900
     for P, L, sizes, mr, depth in grid:
         r = defer_bfs(P, L, sizes, mr, depth, deadline=t0 + budget)
         states += r.states
